@@ -11,10 +11,17 @@ Everything outside the grammar below raises TranslateError(file, line, construct
 caller reports that as a broken obligation of every lemma group that needs the construct.
 
 EXPRESSION GRAMMAR (both files)
-    e ::= int literal | float literal (decimal text, read as the exact decimal rational)
+    e ::= int literal | float literal (decimal text, read as the exact decimal rational: 0.5 = 1/2, 1e-3 = 1/1000)
         | e + e | e - e | e * e | e / e | - e | + e | ( e )
         | numpy.sqrt(e)
-        | <local name bound once, earlier, by `name = e`>
+        | <local name bound once, earlier, by `name = e` or `n1, n2 = e1, e2`>
+        | f(a1, .., an)   INLINED call of a helper: a plain `def f(p1, .., pn)` (no decorators, defaults, * / **,
+                          nested defs, lambdas, global/nonlocal, yield) that is the ONLY binding of `f` in the module
+                          (calculator.py: module level; static.py: module level, or directly in main() before the VRH
+                          block and the only binding of `f` in main), called with exactly n positional arguments, body
+                          `[docstring] (locals)* return e` inside this same grammar.  The parameters are let-bound to the
+                          translated arguments; the body sees ONLY its parameters and its own locals (no self, no columns,
+                          no enclosing or global variables except numpy.sqrt / units / scipy as below); no recursion.
   calculator.py only
         | self.cIJ | self.sIJ          I, J in 1..6; resolved by *running the translated
                                        __getattr__ decision tree* on the groups that
@@ -25,20 +32,34 @@ EXPRESSION GRAMMAR (both files)
         | self.calculator.elast_data.cellmass        -> cellmass
         | scipy.constants.physical_constants["Avogadro constant"][0]   -> N_A  (exact key text)
         | units.Quantity(e, units.rydberg).to(units.kg * units.km ** 2 / units.s ** 2).magnitude
-                                                     -> e * ry   (exact unit text)
+                                                     -> e * ry   (exact unit text; also inside a helper)
   static.py only
-        | A[:, I, J]           A a tracked array, I J int literals (see array states below)
-        | df.loc[:, "col"] | df["col"] | either followed by .to_numpy()
-        | _to_kms(e) | _to_gcm3(e)     -> application of the function parameters to_kms / to_gcm3
+        | A[:, I, J]           A a tracked array (or a helper parameter bound to one), I J int literals (or helper
+                               parameters bound to int literals)
+        | df.loc[:, K] | df[K] | either followed by .to_numpy()     K a string literal or the variable of an unrolled loop
+        | _to_kms(e) | _to_gcm3(e)     -> application of the function parameters to_kms / to_gcm3   (not inside helpers)
 
 STATEMENT GRAMMAR
-  a translated property:  [docstring]  (name = e)*  return e      decorated with exactly @property, args (self)
+  a translated property:  [docstring]  (name = e | n1, n2 = e1, e2)*  return e      exactly @property, args (self)
   __getattr__:            res = re.search(REGEX_CIJ, name);  if res: S*;  raise AttributeError(..)
         S ::= if C: S* [else: S*] | key = c_(res.group(2)) | raise AttributeError(..)
             | return self.calculator.{modulus_adiabatic|modulus_isothermal|_compliances}[key]
         C ::= res.group(N) ==|!= "lit" | key [not] in self.calculator.modulus_keys
             | key [not] in self.calculator._compliances[.keys()]
-  static.py, from the `if input02:` block that binds `cij` to the end of main(): see STATIC_* below.
+  static.py, from the `if input02:` block that binds `cij` to the end of main():
+        cij = numpy.zeros((df.shape[0], 6, 6))
+        FILL LOOP  `for i, j in itertools.product(range(6), range(6)):` or `for i in range(6): for j in range(6):` with body
+                   `key = KEY; if key in df.columns: cij[:, i, j] = df.loc[:, key]`; KEY uses only i, j, int/str literals,
+                   + %, f-strings, min max sorted tuple str and is EVALUATED on all 36 cells; the table goes to Coq
+                   (g_st_fill_keys) where it must equal the model's (cell (i, j) <- column c<min><max>)
+        X = numpy.linalg.inv(cij)                      only of the whole filled cij
+        X = numpy.zeros((Y.shape[0], 7, 7));  X[:, 1:, 1:] = Y[:, :, :] | Y       Y the whole cij / sij
+        df.loc[:, K] = e | df[K] = e                   column store (each store is a new SSA definition)
+        name = e | n1, n2 = e1, e2                     scalar locals; a local bound to a BARE column read is invalidated
+                                                       when that column is stored to afterwards (possible pandas view)
+        for name in ("a", "b", ..): S*                 literal tuple/list of strings: unrolled in order
+        if 'density' in df.columns: (stores to density)*     |  later `if input02:` blocks
+        tail: df[X] = _to_Y(df[X]...) on untracked columns, the literal sampling `if`, sys.stdout.write(df.to_string())
 
 ONLY PATTERN-CHECKED (exact text after ast.unparse, not given a semantics in Coq)
   * REGEX_CIJ itself: it is *executed* (Python re) on the attribute names the formulas use; its
@@ -49,8 +70,9 @@ ONLY PATTERN-CHECKED (exact text after ast.unparse, not given a semantics in Coq
   * CijVolumeBaseInterface: no bases / decorators / __getattribute__ / __setattr__, __init__ only
     stores self.calculator, no class attribute shadows a translated name or a cNN/sNN name.
   * CijPressureBaseInterface: the nine properties are `self.v2p(self.calculator.volume_base.<same name>)`
-    (mass without v2p), __getattr__ forwards through v2p, v2p's body, Calculator.volume_base.
-  * static.py: the loop that fills `cij` from the columns (missing column reads as 0), the
+    (mass without v2p), __getattr__ forwards through v2p (two accepted texts: with and without the two
+    temporaries), v2p's body, Calculator.volume_base.
+  * static.py: the shape of the fill loop (numpy.zeros + `if key in df.columns` = missing column reads as 0), the
     sampling / printing tail, `if input02:` / `if 'density' in df.columns:` guards taken as true.
 """
 import ast
